@@ -29,7 +29,11 @@ ASSUMPTIONS = [
 # "shared": consumers behind ONE shared pass-through adapter that fans out (Out >> Scale >> (In_a, In_b, ...)):
 # one direct target of the output, several registered consumers
 # "dlinear": Out >> DelayFixed(d) >> LinearTime >> In — the push-based adapter refreshes its buffer for an EARLIER time
-KINDS = ["direct", "scale", "next", "linear", "avg", "shared", "dlinear"]
+# "cb": a push-type input (CallbackInput) attached directly that only NOTES notifications and fetches later (lazily);
+# "cbpull" / "cbnext" / "cblinear": a push-type input (direct / behind NextTime / LinearTime) that pulls the announced
+# time while it is being notified
+KINDS = ["direct", "scale", "next", "linear", "avg", "shared", "dlinear", "cb", "cbpull", "cbnext", "cblinear"]
+CB_PULLING = ("cbpull", "cbnext", "cblinear")
 GAPS = [1, 2, 3, 5, 7, 1000, 999999, 1000000, 3600 * 10**6, 86400 * 10**6, 86400 * 10**6 + 1]
 
 
@@ -56,6 +60,9 @@ def _gen_case(rng, malformed):
     if not malformed or rng.random() < 0.5:
         ops.append(["push", t])
         pubs.append(t)
+        for kk in range(nc):
+            if consumers[kk] in CB_PULLING:
+                last_req[kk] = t
     for _ in range(nops):
         if rng.random() < 0.4 or not pubs:
             if malformed and not pubs and rng.random() < 0.5:
@@ -64,6 +71,9 @@ def _gen_case(rng, malformed):
             t += rng.choice(gaps)
             ops.append(["push", t])
             pubs.append(t)
+            for kk in range(nc):
+                if consumers[kk] in CB_PULLING:
+                    last_req[kk] = t
         else:
             k = rng.randrange(nc)
             lo = last_req[k] if last_req[k] is not None else pubs[0]
@@ -127,6 +137,11 @@ CORPUS = [
     {"consumers": ["next", "linear"],
      "ops": [["push", 0], ["push", 3], ["pull", 0, 1], ["pull", 1, 1], ["pull", 0, 2], ["pull", 1, 2], ["pull", 0, 3], ["push", 6],
              ["pull", 0, 4], ["pull", 0, 5], ["pull", 1, 5], ["pull", 0, 6]]},
+    # a lazy push-type input next to an eager consumer: what it has not fetched yet must be kept
+    {"consumers": ["cb", "direct"],
+     "ops": [["push", 0], ["push", 2], ["pull", 1, 2], ["push", 4], ["pull", 1, 4], ["pull", 0, 0], ["pull", 0, 2], ["pull", 0, 4]]},
+    # push-type inputs that pull while notified, directly and behind time adapters
+    {"consumers": ["cbnext", "cblinear", "cbpull"], "ops": [["push", 0], ["push", 3], ["push", 7], ["pull", 0, 7], ["push", 9]]},
     # two consumers with different paces behind one shared pass-through adapter
     {"consumers": ["shared", "shared"],
      "ops": [["push", d] for d in range(0, 7)] + [["pull", 0, 3], ["pull", 1, 1], ["pull", 1, 2], ["pull", 0, 6], ["pull", 1, 3], ["pull", 1, 6]]},
@@ -147,9 +162,25 @@ def run_impl(case):
     out = fm.Output(name="Out")
     inputs, adapters = [], []
     shared = None
+    cb_log = []  # results of pulls made inside notification callbacks: [consumer, time, result]
+
+    def mk_cb(i, pulling):
+        def cb(caller, time):
+            if not pulling:
+                return
+            try:
+                caller.pull_data(time)
+                cb_log.append([i, us_of(time), "ok"])
+            except Exception as e:  # noqa
+                cb_log.append([i, us_of(time), err_class(e)])
+        return cb
+
     for i, kind in enumerate(case["consumers"]):
-        inp = fm.Input(name=f"In{i}")
-        if kind == "direct":
+        if kind in ("cb",) + CB_PULLING:
+            inp = fm.CallbackInput(callback=mk_cb(i, kind in CB_PULLING), name=f"In{i}")
+        else:
+            inp = fm.Input(name=f"In{i}")
+        if kind in ("direct", "cb", "cbpull"):
             out >> inp
             ada = None
         elif kind == "shared":
@@ -164,8 +195,9 @@ def run_impl(case):
             ada = fm.adapters.LinearTime()
             out >> dl >> ada >> inp
         else:
-            ada = {"scale": lambda: fm.adapters.Scale(1.0), "next": fm.adapters.NextTime,
-                   "linear": fm.adapters.LinearTime, "avg": fm.adapters.AvgOverTime}[kind]()
+            ada = {"scale": lambda: fm.adapters.Scale(1.0), "next": fm.adapters.NextTime, "cbnext": fm.adapters.NextTime,
+                   "linear": fm.adapters.LinearTime, "cblinear": fm.adapters.LinearTime,
+                   "avg": fm.adapters.AvgOverTime}[kind]()
             out >> ada >> inp
         inputs.append(inp)
         adapters.append(ada)
@@ -215,7 +247,7 @@ def run_impl(case):
             user.append(err_class(e))
         marks.append([len(events), len(out.data)])
     kinds = ["adapter" if isinstance(k, fm.IAdapter) else "input" for k in keys]
-    return {"nkeys": len(keys), "key_kinds": kinds, "events": events, "user": user, "marks": marks}
+    return {"nkeys": len(keys), "key_kinds": kinds, "events": events, "user": user, "marks": marks, "cb": cb_log}
 
 
 def _ops_from_events(obs):
@@ -311,7 +343,7 @@ def _user_level_bound(case, obs):
     nk = obs["nkeys"]
     if nk != len(case["consumers"]) or "marks" not in obs:
         return None
-    direct = [k in ("direct", "scale", "shared") for k in case["consumers"]]
+    direct = [k in ("direct", "scale", "shared", "cb") for k in case["consumers"]]
     last = {}
     pubs = []
     ev = obs["events"]
@@ -352,10 +384,13 @@ def _user_level_adapters(case, obs):
             if res != "ok":
                 return None
             pubs.append(op[1])
+            for kk, kd in enumerate(case["consumers"]):
+                if kd in CB_PULLING:
+                    last[kk] = op[1]   # it pulled the announced time while being notified
             continue
         k, t = op[1], op[2]
         kind = case["consumers"][k]
-        if kind not in ("next", "linear") or k in dead:
+        if kind not in ("next", "linear", "cbnext", "cblinear") or k in dead:
             continue
         if not pubs or t < pubs[0] or t > pubs[-1] or (k in last and t < last[k]):
             dead.add(k)  # outside the domain from here on (the adapter's state after a refused request is not specified)
@@ -367,11 +402,20 @@ def _user_level_adapters(case, obs):
     return None
 
 
+def _callback_pulls(case, obs):
+    """a push-type consumer that pulls the announced time while it is notified (directly or behind a push-based
+    adapter) must be served: the publication it is told about exists"""
+    for i, t, r in obs.get("cb", []):
+        if r != "ok":
+            return f"consumer {i} ({case['consumers'][i]}) pulled the announced time {t} while being notified and got {r}"
+    return None
+
+
 def monitor(case, obs):
     fails, _, _ = _sim(obs)
     if fails:
         return fails[0]
-    return _user_level_bound(case, obs) or _user_level_adapters(case, obs)
+    return _user_level_bound(case, obs) or _user_level_adapters(case, obs) or _callback_pulls(case, obs)
 
 
 def nontrivial(case, obs):
